@@ -64,6 +64,7 @@ Definition wf_subb (f : font) (s : gsubst) : bool :=
   | Single2 _ => false
   | Lig sets => nodupb (map fst sets) &&
                 forallb (fun s => gid_ok f (fst s) && forallb (wf_ligb f) (snd s)) sets
+  | Multi _ _ => false
   end.
 
 Definition wf_fontb (f : font) : bool :=
@@ -120,6 +121,7 @@ Definition apply_sub (s : gsubst) (g : N) (rest : list N) : option (N * list N) 
   | Single1 d cov => if memN g cov then Some (wrap16 (g + d), rest) else None
   | Single2 m => match lookup g m with Some h => Some (h, rest) | None => None end
   | Lig sets => match lookup g sets with Some ligs => try_ligs ligs rest | None => None end
+  | Multi _ _ => None   (* outside the domain (wf_subb); one-to-many replacement is not modelled *)
   end.
 
 (* the first subtable of the lookup that applies *)
@@ -272,6 +274,7 @@ Section SSub.
                      end
                    else None) sets) in
         Some (match ns with [] => None | _ => Some (Lig ns) end)
+    | Multi _ _ => None
     end.
 
   Definition s_lookup (lk : list gsubst) : option (list gsubst) :=
